@@ -185,6 +185,9 @@ def setSlot (ss : Slots) (s : Nat) (x : Slot) : Slots :=
 
 def nat? (s : String) : Option Nat := s.toNat?
 def int? (s : String) : Option Int := s.toInt?
+/-- label token: an integer, or `?<hex>` — the bytes of a string label (only offered for string labels) -/
+def lab? (s : String) : Option Int :=
+  if s.startsWith "?" then (ofHex (s.drop 1).toString).map tokOfStr else s.toInt?
 def flag? (s : String) : Option Bool := if s == "1" then some true else if s == "0" then some false else none
 
 def natList (ws : List String) : Option (List Nat) := ws.mapM nat?
@@ -207,15 +210,15 @@ def mutate (sl : Slot) (verb : String) (args : List String) : Option (Slot × St
   | .gr und g, "resize", [n] => do
     let n ← nat? n; let (g', r) := g.resize n; pure (.gr und g', showUnit r)
   | .gr und g, "addEdge", [i, j, l, f] => do
-    let i ← nat? i; let j ← nat? j; let l ← int? l; let f ← flag? f
+    let i ← nat? i; let j ← nat? j; let l ← lab? l; let f ← flag? f
     let (g', r) := if und then g.uAddEdge i j l f else g.dAddEdge i j l f
     pure (.gr und g', showUnit r)
   | .gr false g, "addReciprocalEdge", [i, j, l, f] => do
-    let i ← nat? i; let j ← nat? j; let l ← int? l; let f ← flag? f
+    let i ← nat? i; let j ← nat? j; let l ← lab? l; let f ← flag? f
     let (g', r) := g.dAddReciprocalEdge i j l f
     pure (.gr false g', showUnit r)
   | .gr und g, "setEdgeLabel", [i, j, l, f] => do
-    let i ← nat? i; let j ← nat? j; let l ← int? l; let f ← flag? f
+    let i ← nat? i; let j ← nat? j; let l ← lab? l; let f ← flag? f
     let (g', r) := if und then g.uSetEdgeLabel i j l f else g.dSetEdgeLabel i j l f
     pure (.gr und g', showUnit r)
   | .gr und g, "removeEdge", [i, j] => do
@@ -308,12 +311,12 @@ def query (sl : Slot) (name : String) (args : List String) : Option String :=
     let i ← nat? i; let j ← nat? j
     pure (showRes showBool (if und then g.uHasEdge i j else g.dHasEdge i j))
   | .gr und g, "hasEdgeL", [i, j, l] => do
-    let i ← nat? i; let j ← nat? j; let l ← int? l
+    let i ← nat? i; let j ← nat? j; let l ← lab? l
     pure (showRes showBool (if und then g.uHasEdgeL i j l else g.dHasEdgeL i j l))
   | .gr und g, "getEdgeLabel", [i, j, t] => do
     let i ← nat? i; let j ← nat? j; let t ← flag? t
     if g.labelled then
-      pure (showRes toString (if und then g.uGetEdgeLabel i j t else g.dGetEdgeLabel i j t))
+      pure (showRes showLabel (if und then g.uGetEdgeLabel i j t else g.dGetEdgeLabel i j t))
     else
       pure (showRes (fun _ => "-") (if und then g.uGetEdgeLabel i j t else g.dGetEdgeLabel i j t))
   | .gr _ g, "getOutNeighbours", [i] => do
